@@ -1,7 +1,7 @@
 ------------------------------ MODULE MC_Unit ------------------------------
 (* Unit tests of the specification operators against examples printed in   *)
 (* the RFCs and in the property statements (evaluated by TLC as ASSUMEs).  *)
-EXTENDS Admit, TLC
+EXTENDS Resolve, TLC
 
 \* "abc" helpers: texts from small alphabets are written with S("...") through a table
 Ch(c) == CASE c = "a" -> 97 [] c = "b" -> 98 [] c = "c" -> 99 [] c = "d" -> 100 [] c = "g" -> 103
@@ -51,6 +51,14 @@ ASSUME ~InLang("Uri", T(<<"/","a">>)) /\ InLang("UriRef", T(<<"/","a">>))
 ASSUME ~InLang("UriRef", T(<<"1",":","a">>)) /\ InLang("UriRef", T(<<".","/","1",":","a">>))
 ASSUME InLang("UHost", T(<<"[",":",":","1","]">>)) /\ ~InLang("UHost", T(<<"[",":","1","]">>))
 ASSUME InLang("USegment", T(<<"%","2","e">>)) /\ ~InLang("USegment", T(<<"%","2">>))
+
+\* the three shapes of the big_resolve events (Trace_Events.BigResolveConforms), with a short <big>
+ASSUME ResolveStrict(T(<<"s",":","/","/","h","/","p","/","q">>), T(<<"x",":","/","x","/",".",".","/","a","a","a","/",".","/","y">>))
+         = T(<<"x",":","/","a","a","a","/","y">>)
+ASSUME ResolveStrict(T(<<"s",":","/","/","h","/","p","/","q">>), T(<<".",".","/","a","a","a","/",".","/","y">>))
+         = T(<<"s",":","/","/","h","/","a","a","a","/","y">>)
+ASSUME ResolveStrict(T(<<"s",":","/","/","h","/","a","a","a","/","q">>), T(<<".","/","y">>))
+         = T(<<"s",":","/","/","h","/","a","a","a","/","y">>)
 
 \* admissible renderings
 ASSUME Admissible(CtxOf("uri", "ref", <<>>), <<>>, FALSE, <<T(<<"b",":","c">>)>>)
